@@ -4,7 +4,7 @@ import itertools
 
 import numpy as np
 
-from mc import models, solving, certificate as CERT
+from mc import models, solving, certificate as CERT, recording as REC
 from mc import refalg as R
 
 CONFIGS = {
@@ -89,8 +89,9 @@ def run(spec, cfgname, post_depth=0):
         return res
     # objects created before the solve and never sent
     unused = [("pre:unused_pt", 2 * ctx.points["x0"] - ctx.points["xn"]), ("pre:unused_ex", ctx.exprs["d0"] - 2 * ctx.exprs["dn"] + 1)]
-    r = solving.solve(ctx.pep, backend=cfg["backend"], solver=cfg["solver"], mode=cfg["mode"], dr=cfg["dr"],
-                      verbose=cfg["verbose"])
+    with REC.recording():
+        r = solving.solve(ctx.pep, backend=cfg["backend"], solver=cfg["solver"], mode=cfg["mode"], dr=cfg["dr"],
+                          verbose=cfg["verbose"])
     pep = ctx.pep
     be = cfg["backend"]
     if r["exc"] is not None:
@@ -126,7 +127,18 @@ def run(spec, cfgname, post_depth=0):
             S = np.asarray(M.eval_dual())
             if S.shape != tuple(M.shape):
                 res["c01"].append(("cert:multiplier-shape:%s" % be, "the multiplier of an LMI has shape %s, LMI %s" % (S.shape, M.shape)))
-        cert = CERT.certificate(pep)
+        # the list of constraints is the list of objects actually SENT (recorded by the wrapper subclass), not the
+        # library's own tracking list; the two must agree
+        calls = getattr(pep.wrapper, "rec_calls", None)
+        sent_c = [c[1] for c in calls if c[0] == "scalar"] if calls is not None else None
+        sent_m = [c[1] for c in calls if c[0] == "lmi"] if calls is not None else None
+        if calls is not None and ([id(x) for x in sent_c] != [id(x) for x in pep._list_of_constraints_sent_to_wrapper]
+                                  or [id(x) for x in sent_m] != [id(x) for x in pep._list_of_psd_sent_to_wrapper]):
+            res["c01"].append(("cert:sent-list-mismatch:%s" % be, "the constraints the problem reports as sent (%d scalar, %d LMI) "
+                               "are not the ones that were sent (%d scalar, %d LMI)"
+                               % (len(pep._list_of_constraints_sent_to_wrapper), len(pep._list_of_psd_sent_to_wrapper),
+                                  len(sent_c), len(sent_m))))
+        cert = CERT.certificate(pep, constraints=sent_c, psds=sent_m)
         sc = cert["scale"]
         if cert["resid"] > tol * sc:
             if cert["asym_pairs"] > 0 and cert["resid_after_asym"] <= tol * sc:
@@ -154,7 +166,16 @@ def run(spec, cfgname, post_depth=0):
         held = held_objects(ctx) + unused
         if post_depth:
             held += post_solve_objects(ctx, post_depth)
-        res["c02"] += [(k + ":" + be, m) for k, m in CERT.instance(pep, held=held, tol=tol)]
+        sG = sF = None
+        try:
+            if be == "cvxpy":
+                sG, sF = pep.wrapper.G.value, pep.wrapper.F.value
+            else:
+                sol = pep.wrapper.task.sol
+                sG, sF = sol["barx"][0], sol["xx"]
+        except Exception:
+            pass
+        res["c02"] += [(k + ":" + be, m) for k, m in CERT.instance(pep, held=held, tol=tol, solver_G=sG, solver_F=sF)]
         primal = float(pep.objective.eval())
         if cfg["mode"] == "primal" and abs(primal - val) > 1e-9 * max(1, abs(val)) and not cfg["dr"]:
             res["c02"].append(("instance:primal-value:%s" % be, "primal mode returned %.10g, objective evaluates to %.10g" % (val, primal)))
